@@ -88,7 +88,10 @@ def c16_nontrivial(c, ms):
 CONFIG = dict(
     modules=["SigModel.Props.C16"],
     theorems=["SigModel.RealIP." + t for t in [
-        "C16_untrusted_peer_ignores_headers",
+        "C16_untrusted_peer_ignores_headers", "C16_trusted_result_shape", "C16_appended_hop_wins",
+        "C16_direct_client_cannot_spoof", "C16_no_trusted_list", "C16_endpoints_gated", "C16_direct_client_gate",
+        "C16_facts", "C16_contains_is_prefix_match", "C16_statement_on_bits", "C16_default_lists_wf",
+        "C16_default_config_public_peer_refused", "C16_config", "C16_parse_refuses_iff",
     ]],
     generated=["RealIP"],
     harness=dict(pkg="signaling", test="TestVerifC16"),
